@@ -16,7 +16,7 @@ CHECKS = {
  "C05": dict(
    level="model_checking",
    text="Wire has three parts: (1) every class of bytes (payload, login exchange, work-connection handshakes, control messages, token, secret key, http password) travels through a stack of layers (per-proxy AES, token-keyed control cipher, digest, TLS) that depends on the configuration, and is visible iff no layer hides it; TLC checks TLSHidesEverything, ProxyEncHidesPayload, SecretsNeverClear over the whole lattice; (2) the server accept path (first-byte sniff, TLS handshake with optional client certificate verification, force implied by a trusted CA) as a state machine explored over every policy x peer with ForcedMeansTLS and CAMeansCert; (3) the client's identity rule. Two deviations (a CA that no longer forces TLS, a transport that silently skips TLS) must be caught. Real frps / frpc pairs with a recording relay on the path, scripted peers with every first byte and certificate class against the four policies, and a real frpc against servers of every identity produce observations that TLC judges against the same definitions (Trace_Wire).",
-   note="Trusted: TLC, the relay capture and marker search (literal bytes; websocket client frames unmasked), 1.5 s answer window. Sampled wire configurations (12 quick, 48 thorough); token authentication only.",
+   note="Trusted: TLC, the relay capture and marker search (literal bytes; websocket client frames unmasked), 4 s answer window. Sampled wire configurations (12 quick, 48 thorough); token authentication only.",
    technique="TLA+ spec Wire model-checked with TLC (layer stacks over the lattice, accept-path state machine, deviations) + validation of captures / scripted-peer outcomes from real frps and frpc (Trace_Wire)",
    design="4 (C05), 3.7"),
  "C03": dict(
